@@ -334,6 +334,19 @@ let c07 lineno (f : string array) =
   | "E" -> print_string "SKIP\n"
   | _ when !c07_desync -> print_string "SKIP\n"
   | "HANG" -> Printf.printf "FAIL\t%d\tmodel=-\tspec=hang:%s\n" lineno (String.map (fun c -> if c = ' ' then '-' else c) (raw_of_hex f.(2)))
+  | "REOPEN" ->
+    (* a restart keeps the backend state and drops the (in-memory) multipart uploads *)
+    c07_cands := dedupe (List.map (fun hs -> { hs with M.hs_up = M.uinit; M.hs_utbl = [] }) !c07_cands); print_string "SKIP\n"
+  | "NOTE" | "CRASH" -> print_string "SKIP\n"
+  | "MAYBE" ->
+    (* a write that was in flight when the server was killed: afterwards the state is the one
+       before it or the one after it *)
+    let o = parse_hop f in
+    let ob = { M.ob_status = z_of_int 200; ob_code = []; ob_panic = false; ob_body = []; ob_etag = []; ob_cl = [];
+               ob_vid = []; ob_delmarker = []; ob_meta = []; ob_names = []; ob_contents = []; ob_truncated = false;
+               ob_next = []; ob_versions = [] } in
+    c07_cands := dedupe (!c07_cands @ List.map (fun hs -> fst (M.hist_step md5 !hist_cfg hs o ob)) !c07_cands);
+    print_string "SKIP\n"
   | "RB" -> c07_in_round := true; c07_in_probe := false; c07_round := []; c07_probes := []; print_string "SKIP\n"
   | "RP" -> c07_in_probe := true; print_string "SKIP\n"
   | "RE" ->
@@ -401,8 +414,8 @@ let () =
        | "c12" -> c12 !lineno f
        | "c16" -> c16 !lineno f
        | "c09" -> c09 !lineno f
-       | "c07" -> c07 !lineno f
-       | "c01" | "c02" | "c03" | "c04" | "c05" | "c06" | "c08" | "c10" | "c13" | "c14" | "c15" -> hist !lineno f
+       | "c07" | "c15" -> c07 !lineno f
+       | "c01" | "c02" | "c03" | "c04" | "c05" | "c06" | "c08" | "c10" | "c13" | "c14" -> hist !lineno f
        | "#" -> print_string "OK\n"
        | k -> failwith ("unknown case kind " ^ k))
     done
